@@ -255,6 +255,9 @@ func (m *Machine) query(b *sym.Bool) smt.Result {
 	m.res.SolverTime += time.Since(t0)
 	m.res.Queries++
 	m.solver.Pop()
+	if m.solver.Dead() {
+		m.abort(PathUnsupported, "solver ignored its timeout and was killed (feasibility query)")
+	}
 	return r
 }
 
